@@ -42,6 +42,7 @@ struct World {
 }
 
 thread_local! {
+    static PENDING_SUB: RefCell<Option<String>> = const { RefCell::new(None) };
     static W: RefCell<World> = RefCell::new(World::default());
     static PANIC_MSG: RefCell<Option<String>> = const { RefCell::new(None) };
 }
@@ -743,11 +744,36 @@ fn exec_op(op: &Value, ctx: &mut Ctx) {
                     panic!("harness: slab create outside actor");
                 }
             } else {
-                let own = match ctx {
-                    Ctx::S(s) => actor_new!(s, Node, notify),
-                    Ctx::M(_, cx) => actor_new!(cx, Node, notify),
-                    Ctx::P(_, cx) => actor_new!(cx, Node, notify),
-                    Ctx::D => panic!("harness: acreate in drop handler"),
+                // form 0: actor_new! + call!; forms 1/2: the two arms of actor! (creation + init call in one)
+                let form = op.get("form").and_then(|v| v.as_i64()).unwrap_or(0);
+                let mut init_done = false;
+                let own = if form == 0 || op.get("init").is_none() {
+                    match ctx {
+                        Ctx::S(s) => actor_new!(s, Node, notify),
+                        Ctx::M(_, cx) => actor_new!(cx, Node, notify),
+                        Ctx::P(_, cx) => actor_new!(cx, Node, notify),
+                        Ctx::D => panic!("harness: acreate in drop handler"),
+                    }
+                } else {
+                    let init = &op["init"];
+                    let tok = Tok::new(init);
+                    init_done = true;
+                    PENDING_SUB.with(|p| {
+                        *p.borrow_mut() = Some(format!(
+                            r#"{{"e":"sub","q":"main","item":{},"hr":[],"aid":{},"prep":true}}"#,
+                            init["id"].as_i64().unwrap(),
+                            aid
+                        ))
+                    });
+                    match (form, &mut *ctx) {
+                        (1, Ctx::S(s)) => actor!(s, Node::init(aid, tok), notify),
+                        (1, Ctx::M(_, cx)) => actor!(cx, Node::init(aid, tok), notify),
+                        (1, Ctx::P(_, cx)) => actor!(cx, Node::init(aid, tok), notify),
+                        (_, Ctx::S(s)) => actor!(s, <Node>::init(aid, tok), notify),
+                        (_, Ctx::M(_, cx)) => actor!(cx, <Node>::init(aid, tok), notify),
+                        (_, Ctx::P(_, cx)) => actor!(cx, <Node>::init(aid, tok), notify),
+                        (_, Ctx::D) => panic!("harness: acreate in drop handler"),
+                    }
                 };
                 actor = own.clone();
                 w(|w| w.refs.insert(aid, actor.clone()));
@@ -757,6 +783,13 @@ fn exec_op(op: &Value, ctx: &mut Ctx) {
                 ));
                 let h = OwnH { oid, aid, own: Some(own) };
                 w(|w| w.owns.insert(oid, h));
+                if init_done {
+                    // the init call was queued by actor! itself: report the submission now
+                    if let Some(l) = PENDING_SUB.with(|p| p.borrow_mut().take()) {
+                        ev(l);
+                    }
+                    return;
+                }
             }
             if let Some(init) = op.get("init") {
                 let tok = Tok::new(init);
@@ -1145,7 +1178,21 @@ fn top_op(op: &Value, stk: &mut Option<Stakker>) {
                 let s = stk.as_mut().expect("no stakker");
                 let f = mk_filter(&op["levels"]);
                 ev(format!(r#"{{"e":"setlogger","levels":{}}}"#, op["levels"]));
-                s.set_logger(f, |_core, r| {
+                let sink = op.get("sink").and_then(|v| v.as_bool()).unwrap_or(false);
+                let mut sink_made = false;
+                s.set_logger(f, move |_core, r| {
+                    if sink && !sink_made {
+                        // a logger that lazily creates its own sink actor while handling a record
+                        sink_made = true;
+                        let own = actor_new!(_core, Node, mk_notify(900));
+                        let a = own.clone();
+                        w(|w| w.refs.insert(900, a.clone()));
+                        ev(format!(
+                            r#"{{"e":"acreate","aid":900,"oid":900,"parent":0,"slab":false,"logid":{},"quiet":true}}"#,
+                            a.id()
+                        ));
+                        w(|w| w.owns.insert(900, OwnH { oid: 900, aid: 900, own: Some(own) }));
+                    }
                     struct V(Vec<String>);
                     impl LogVisitor for V {
                         fn kv_u64(&mut self, key: Option<&str>, val: u64) {
